@@ -4,12 +4,17 @@
 package wl
 
 import (
+	"context"
 	"errors"
 	"fmt"
+	"io"
 	"math"
+	"net"
+	"os"
 	"strconv"
 	"strings"
 	"sync"
+	"syscall"
 	"time"
 
 	"github.com/cybergarage/go-redis/redis"
@@ -109,6 +114,33 @@ func DefaultResult(c *Call) (*resp.Value, error) {
 		v = resp.Bs(tok)
 	}
 	return &v, nil
+}
+
+// InjectedError is the error a handler double returns for call seq. With identities, seven calls in eight return an
+// error that wraps one of the well-known sentinel errors a real backend passes up (closed connection, end of stream,
+// cancelled context, expired deadline, reset): to the framework a handler error is a handler error, whatever it wraps.
+func InjectedError(seq int, identities bool) error {
+	tok := "E" + Tok(seq)
+	if !identities {
+		return errors.New(tok)
+	}
+	switch seq % 8 {
+	case 1:
+		return fmt.Errorf("%s backend: %w", tok, net.ErrClosed)
+	case 2:
+		return fmt.Errorf("%s backend: %w", tok, io.EOF)
+	case 3:
+		return fmt.Errorf("%s backend: %w", tok, context.Canceled)
+	case 4:
+		return fmt.Errorf("%s backend: %w", tok, os.ErrDeadlineExceeded)
+	case 5:
+		return fmt.Errorf("%s backend: %w", tok, syscall.ECONNRESET)
+	case 6:
+		return fmt.Errorf("%s backend: %w", tok, io.ErrUnexpectedEOF)
+	case 7:
+		return fmt.Errorf("%s backend: %w", tok, context.DeadlineExceeded)
+	}
+	return errors.New(tok)
 }
 
 func (d *Double) record(conn *redis.Conn, method string, sig string) (*redis.Message, error) {
